@@ -102,7 +102,10 @@ def resume (d : D) (r : Res) : D × Bool :=
   | .paused => (runCbs d.cbs r d.seen, true)
   | _ => (d, false)
 
-def D.called (d : D) : Bool := d.st != .unfired
+def D.called (d : D) : Bool :=
+  match d.st with
+  | .unfired => false
+  | _ => true
 
 /-! ## testtools -/
 
